@@ -4,6 +4,8 @@ property text and a scratch worktree; nothing from /verif's machinery."""
 import json, sys
 
 pid, tag = sys.argv[1], sys.argv[2]
+# optional: ideas other engineers already used for this property (to get different ones)
+avoid = sys.argv[3] if len(sys.argv) > 3 else ""
 prop = None
 for l in open("/verif/properties.jsonl"):
     p = json.loads(l)
@@ -25,6 +27,8 @@ for verification tooling – what you write must be independent of it. No networ
 Go environment for every shell call: `export GOFLAGS= GOPROXY=off` and run go commands inside the module
 directory ({wt}/core, {wt}/extras or {wt}/app); do NOT set GOSUMDB. `go build ./... && go test ./<pkg>/...` work offline.
 (`git status` may show `extras/outbounds/acl/v2geo/geoip.dat` as modified – ignore that file, never include it in a diff.)
+
+{("Other engineers already produced changes based on these ideas – do NOT reuse them, find different clauses of the property and different code sites: " + avoid) if avoid else ""}
 
 Produce TWO different changes (different mechanism / different code site), each one:
  * is a realistic edit a maintainer could make (an optimisation, a refactor gone wrong, a "simplification",
